@@ -4,7 +4,7 @@ seeds="$1"; shift
 cd /verif
 for p in "$@"; do
   for sd in $seeds; do
-    out=$(VERIF_SEED=$sd timeout 1800 /venv/bin/python -m sim check $p --tier quick 2>&1)
+    out=$(VERIF_OUT=/dev/shm/ms-out VERIF_SEED=$sd timeout 3600 /venv/bin/python -m sim check $p --tier quick 2>&1)
     rc=$?
     echo "$p seed=$sd rc=$rc $(echo "$out" | tail -1)"
     if [ $rc -ne 0 ]; then echo "$out" | grep -E "^violation|HARNESS" | cut -c1-400 | head -5; fi
